@@ -43,7 +43,9 @@ def run(ctx):
         "nor writes in place to an alias of the committed-state parameter (interprocedural alias analysis: views via subscripts, asarray/asfearray/reshape; fresh via arithmetic/copy); "
         "the committed state __zOld is written only by construction, lazy zero-initialisation, Save_Iter and Set_Iter, Construct_local_matrix_system writes the trial state only; "
         "Integrate is called only from assembly and MaterialPoint.Run, result queries read through Compute_stress; every local Newton update passes the bound on the multipliers; "
-        "the no-internal-variable path returns the elastic stress and C. NOT decided: admissibility, dissipation inequality, tangent consistency, agreement of the two local solvers."
+        "the no-internal-variable path returns the elastic stress and C. Constitutive derivative pairs and the scalar spectral return as rational-function identities (R19.7, R19.8); the multiplier "
+        "column of the local Jacobian (R19.11); the plane-stress condensation (R19.5); the structure of __Flow - projection last, tangent from the final Jacobian whether or not a point flows (R19.18); state "
+        "and dt threading (R19.14-R19.17). NOT decided: the dissipation inequality along a history, convergence of the local Newton iterations, numerical agreement of the two local solvers."
     )
     cg = CallGraph(repo)
     beh = repo.cls(BEH)
